@@ -519,7 +519,11 @@ def r4(repo, res):
     gene = Obj(mutations={(1, "A>G"): 0, (2, "C>T"): 0, (3, "insT"): 0, (4, "G>A"): 0},
                is_functional=lambda m: m[0] != 3)
     try:
-        v = Evaluator({"gene": gene, "coverage": collections.defaultdict(int, cov)}, funcs={"Mutation": Mut}).ev(st.value)
+        # every parameter of the routine is bound (a guard added to the comprehension may consult any of them)
+        struct_ = Obj(position_cn=lambda p: 2, solution={"1": 2}, max_cn=lambda: 2, _solution_nice=lambda: "S")
+        env_ = {a_.arg: None for a_ in f.args.args + f.args.kwonlyargs}
+        env_.update({"gene": gene, "coverage": collections.defaultdict(int, cov), "cn_solution": struct_})
+        v = Evaluator(env_, funcs={"Mutation": Mut}).ev(st.value)
     except (Unfoldable, Raised) as e:
         res.err("C15.R4", f"novel-candidate set outside folding language: {e}")
         return
